@@ -11,6 +11,7 @@ import (
 	"flag"
 	"fmt"
 	"hash/fnv"
+	"io"
 	"os"
 	"os/exec"
 	"path/filepath"
@@ -403,11 +404,11 @@ func Main(checks map[string]*Check) {
 	total := newCtx(ch, *tier, 0, 1)
 	removeTmp := func() {}
 
-	if n <= 1 {
-		c := newCtx(ch, *tier, 0, 1)
-		ch.Run(c)
-		merge(&total.res, &c.res)
-	} else {
+	if n < 1 {
+		n = 1
+	}
+
+	{
 		tmp, err := os.MkdirTemp(filepath.Join(VerifRoot, ".work"), "part-"+id+"-")
 		if err != nil {
 			fmt.Fprintln(os.Stderr, err)
@@ -420,6 +421,7 @@ func Main(checks map[string]*Check) {
 
 		results := make([]*Result, n)
 		errs := make([]error, n)
+		crashes := make([]*Violation, n)
 
 		for i := 0; i < n; i++ {
 			wg.Add(1)
@@ -431,9 +433,24 @@ func Main(checks map[string]*Check) {
 				cmd := exec.Command(os.Args[0], id, "--tier", *tier, "--shard", fmt.Sprint(i),
 					"--nshards", fmt.Sprint(n), "--partial", pf)
 				cmd.Stdout = os.Stderr
-				cmd.Stderr = os.Stderr
+
+				tail := &tailBuffer{max: 64 << 10}
+				cmd.Stderr = io.MultiWriter(os.Stderr, tail)
 
 				if err := cmd.Run(); err != nil {
+					// a worker that dies in a panic raised inside heimdall code did not finish its part of the exploration
+					// because the implementation crashed where the harness calls it like production does: that is a
+					// finding about the implementation, not an infrastructure problem
+					if site := crashSite(tail.String()); site != "" {
+						crashes[i] = &Violation{
+							Signature: "worker-crashed-in-heimdall-code/" + site,
+							Summary:   "shard " + fmt.Sprint(i) + " died: " + firstLines(tail.String(), 12),
+							Replay:    json.RawMessage(`{"worker_crash":true}`),
+						}
+
+						return
+					}
+
 					errs[i] = fmt.Errorf("shard %d: %w", i, err)
 
 					return
@@ -459,12 +476,96 @@ func Main(checks map[string]*Check) {
 				os.Exit(2)
 			}
 
+			if crashes[i] != nil {
+				total.res.Violations = append(total.res.Violations, *crashes[i])
+				total.res.ViolCount[crashes[i].Signature]++
+				total.res.NotExhaust = append(total.res.NotExhaust, "a worker process crashed")
+
+				continue
+			}
+
 			merge(&total.res, results[i])
 		}
 	}
 
 	removeTmp()
 	os.Exit(finish(ch, *tier, &total.res, time.Since(start), n))
+}
+
+type tailBuffer struct {
+	mu  sync.Mutex
+	buf []byte
+	max int
+}
+
+func (t *tailBuffer) Write(p []byte) (int, error) {
+	t.mu.Lock()
+	defer t.mu.Unlock()
+
+	t.buf = append(t.buf, p...)
+	if len(t.buf) > t.max {
+		t.buf = t.buf[len(t.buf)-t.max:]
+	}
+
+	return len(p), nil
+}
+
+func (t *tailBuffer) String() string {
+	t.mu.Lock()
+	defer t.mu.Unlock()
+
+	return string(t.buf)
+}
+
+// crashSite returns the innermost heimdall function of a Go crash report if the crash happened inside heimdall
+// code (the first frame of the crashing goroutine that belongs to the heimdall module is not harness code).
+func crashSite(stderr string) string {
+	idx := strings.LastIndex(stderr, "\npanic: ")
+	if f := strings.LastIndex(stderr, "\nfatal error: "); f > idx {
+		idx = f
+	}
+
+	if idx < 0 {
+		if strings.HasPrefix(stderr, "panic: ") || strings.HasPrefix(stderr, "fatal error: ") {
+			idx = 0
+		} else {
+			return ""
+		}
+	}
+
+	for _, line := range strings.Split(stderr[idx:], "\n") {
+		line = strings.TrimSpace(line)
+		if !strings.HasPrefix(line, "github.com/dadrus/heimdall/") {
+			continue
+		}
+
+		if strings.HasPrefix(line, "github.com/dadrus/heimdall/verif/") || strings.Contains(line, "/verifshim/") ||
+			strings.Contains(line, ".Verif") {
+			return ""
+		}
+
+		site := strings.TrimPrefix(line, "github.com/dadrus/heimdall/internal/")
+		if i := strings.LastIndex(site, "("); i > 0 && strings.HasSuffix(site, ")") {
+			site = site[:i]
+		}
+
+		return site
+	}
+
+	return ""
+}
+
+func firstLines(s string, n int) string {
+	if i := strings.LastIndex(s, "panic: "); i >= 0 {
+		s = s[i:]
+	}
+
+	lines := strings.Split(s, "\n")
+	if len(lines) > n {
+		lines = lines[:n]
+	}
+
+	return strings.Join(lines, " | ")
 }
 
 func envOr(k, d string) string {
